@@ -15,7 +15,7 @@ KINDS = ["CONSTANT", "CONSTANT", "CHAR_CONST", "STRING"]
 SHAPES = ["C11-hex-b-digits", "C11-hex-e-suffix-sign", "C11-hexfloat-empty-part", "C11-hexfloat-hex-suffix",
           "C11-universal-character-name", "C11-long-hex-escape-char"]      # positions = the driver's c11_shapes answer
 # repaired in the source: the shape is still computed (Spec/CConst.shape_k1), its id never suppresses anything any more
-REPAIRED = {"C11-hex-b-digits"}
+REPAIRED = {"C11-hex-b-digits", "C11-hexfloat-empty-part", "C11-hexfloat-hex-suffix"}
 
 
 def impl_one_ok(ty, w, rest):
